@@ -97,6 +97,20 @@ def run(ck):
     ok = len(jn) == 1 and len(tests) == 1 and cfg.edge_dominates(f, tests[0].id, 0, jn[0])
     ck.ob("C09-R2", "Worker::~Worker/joins", ok, f.loc, f, "if (thread.joinable()) thread.join()")
 
+    # Listener::shutdown() only notifies a *bound* shutdownFd, so the notifier must be bound before the acceptor thread exists:
+    # otherwise a shutdown() issued right after serveThreaded() is lost and the acceptor keeps polling
+    rt = lib.single(prog, L + "runThreaded")
+    dom = cfg.dominators(rt)
+    binds = [e for e in rt.calls(lambda e: (e.get("callee") or "") == "Pistache::NotifyFd::bind" and strip_tmpl((e.get("recv") or {}).get("f") or "") == L + "shutdownFd")]
+    starts = [e for e in rt.events(("call", "construct")) if "std::thread" in (e.get("cls") or e.get("callee") or "") and (e["k"] == "construct" or e.get("op") == "=")]
+    ck.require(starts, "acceptor thread creation not found in Listener::runThreaded")
+    ok = bool(binds) and all(cfg.ev_dominates(dom, binds[0], s_) for s_ in starts)
+    guard_is_bound = any(b.term and "c:Pistache::NotifyFd::isBound" in (b.term.get("refs") or []) for b in lib.single(prog, L + "shutdown").blocks.values())
+    ck.ob("C09-R2", "Listener::runThreaded/notifier-bound-before-thread", ok or not guard_is_bound, starts[0].loc, rt,
+          "shutdownFd.bind(poller) precedes the creation of the acceptor thread" if ok else
+          "the acceptor thread is started before shutdownFd is bound while shutdown() skips an unbound notifier: a shutdown() issued in the "
+          "start-up window is never delivered and the acceptor thread keeps running")
+
     # destructor: the acceptor thread is joined before the listening socket it polls is closed
     f = lib.single(prog, L + "~Listener")
     dom = cfg.dominators(f)
@@ -166,6 +180,23 @@ def run(ck):
         d = [x for x in fn.events("decl") if x.get("var") == thread_test_var(fn)]
         okd = bool(d) and "get_id" in ((d[0].get("init") or {}).get("t") or "") and "thread()" in ((d[0].get("init") or {}).get("t") or "")
         ck.ob("C09-R3", "%s/thread-test" % name, okd, d[0].loc if d else fn.loc, fn, "isInRightThread = (this_thread::get_id() == context().thread())", nontrivial=False)
+    # per-descriptor state does not outlive the connection: descriptor numbers are reused by accept(), so removePeer must drop the
+    # connection's entry of every table keyed by descriptor before the descriptor is closed (a stale toWrite queue would be sent to
+    # the next client that gets the number)
+    rp = lib.single(prog, T + "removePeer")
+    rdom = cfg.dominators(rp)
+    cl = [e for e in rp.calls(lambda e: (e.get("callee") or "") == "close" and not (e.get("cfile") or "").startswith(facts.REPO))]
+    ck.require(cl, "close() not found in Transport::removePeer")
+    tcls = prog.cls("Pistache::Tcp::Transport")
+    keyed = [x["q"] for x in tcls["fields"] if "unordered_map<Fd" in x["type"].replace("Pistache::", "") or "unordered_map<int" in x["type"]]
+    keyed = [q for q in keyed if q.rsplit("::", 1)[1] in ("peers", "toWrite")]
+    ck.require(len(keyed) >= 2, "descriptor-keyed tables of Transport: %s" % keyed)
+    for q in keyed:
+        er = [e for e in rp.calls(lambda e: e.base_callee() == "std::unordered_map::erase" and (e.get("recv") or {}).get("f") == q)]
+        ok = bool(er) and all(cfg.ev_dominates(rdom, er[0], c) for c in cl)
+        ck.ob("C09-R3", "removePeer/erases:%s" % q.rsplit("::", 1)[1], ok, er[0].loc if er else rp.loc, rp,
+              "entry erased before close(fd)" if ok else
+              "removePeer closes the descriptor but keeps its %s entry: the next connection that reuses the number inherits it" % q.rsplit("::", 1)[1])
     # toWrite is the one table both the acceptor thread (handleNewPeer) and the worker touch: always under its lock
     nacc = 0
     for fn in [x for x in prog.funcs.values() if x.base.startswith(T) and not x.is_lambda]:
